@@ -37,6 +37,9 @@ pub struct CaseSrc {
     /// line (relative to the start of `code`) at which the reference side of a differential case
     /// starts: compile errors from there on are generator bugs, not violations
     pub ref_from: Option<usize>,
+    /// line at which the control side starts (between the macro side and the reference side):
+    /// a case whose control does not compile is dropped (neither a violation nor a generator bug)
+    pub ctl_from: Option<usize>,
 }
 
 pub struct Batch {
@@ -49,6 +52,7 @@ pub struct Batch {
     pub lines: BTreeMap<usize, (usize, usize, usize)>,
     /// absolute first line of the reference side per case idx
     pub ref_lines: BTreeMap<usize, usize>,
+    pub ctl_lines: BTreeMap<usize, usize>,
     pub features: Vec<String>,
 }
 
@@ -57,6 +61,8 @@ pub struct BuildOutcome {
     pub failed_cases: BTreeMap<usize, Vec<String>>,
     /// case idx -> compiler messages located in the reference side (generator bug)
     pub failed_ref: BTreeMap<usize, Vec<String>>,
+    /// case idx -> compiler messages located in the control side
+    pub failed_ctl: BTreeMap<usize, Vec<String>>,
     /// errors that could not be attributed to a case
     pub other_errors: Vec<String>,
     pub ok: bool,
@@ -109,6 +115,7 @@ pub fn write_batch(spec: &BatchSpec) -> Batch {
     let mut bins: Vec<Vec<usize>> = vec![Vec::new(); nbins];
     let mut lines = BTreeMap::new();
     let mut ref_lines = BTreeMap::new();
+    let mut ctl_lines = BTreeMap::new();
     for b in 0..nbins {
         let mine: Vec<&CaseSrc> = live.iter().enumerate().filter(|(i, _)| i % nbins == b).map(|(_, c)| *c).collect();
         let mut src = String::from(spec.header);
@@ -118,6 +125,9 @@ pub fn write_batch(spec: &BatchSpec) -> Batch {
             lines.insert(c.idx, (b, line, line + nl));
             if let Some(r) = c.ref_from {
                 ref_lines.insert(c.idx, line + r);
+            }
+            if let Some(r) = c.ctl_from {
+                ctl_lines.insert(c.idx, line + r);
             }
             src.push_str(&c.code);
             if !c.code.ends_with('\n') {
@@ -129,7 +139,7 @@ pub fn write_batch(spec: &BatchSpec) -> Batch {
         src.push_str(&(spec.main)(&mine));
         fs::write(dir.join(format!("src/bin/{}_b{:02}.rs", spec.pkg, b)), src).unwrap();
     }
-    Batch { dir, pkg: spec.pkg.to_string(), nbins, bins, lines, ref_lines, features: vec![] }
+    Batch { dir, pkg: spec.pkg.to_string(), nbins, bins, lines, ref_lines, ctl_lines, features: vec![] }
 }
 
 impl Batch {
@@ -146,6 +156,7 @@ impl Batch {
             .expect("cargo build");
         let mut failed_cases: BTreeMap<usize, Vec<String>> = BTreeMap::new();
         let mut failed_ref: BTreeMap<usize, Vec<String>> = BTreeMap::new();
+        let mut failed_ctl: BTreeMap<usize, Vec<String>> = BTreeMap::new();
         let mut other = Vec::new();
         let stdout = String::from_utf8_lossy(&out.stdout);
         for l in stdout.lines() {
@@ -172,6 +183,8 @@ impl Batch {
                             if *b == bn && ln >= *lo && ln <= *hi {
                                 if self.ref_lines.get(idx).map(|r| ln >= *r).unwrap_or(false) {
                                     failed_ref.entry(*idx).or_default().push(format!("{} (line {})", text, ln - lo + 1));
+                                } else if self.ctl_lines.get(idx).map(|r| ln >= *r).unwrap_or(false) {
+                                    failed_ctl.entry(*idx).or_default().push(format!("{} (line {})", text, ln - lo + 1));
                                 } else {
                                     failed_cases.entry(*idx).or_default().push(format!("{} (line {})", text, ln - lo + 1));
                                 }
@@ -192,8 +205,13 @@ impl Batch {
         // a case whose reference side does not compile is a generator bug, whatever its macro side does
         for k in failed_ref.keys() {
             failed_cases.remove(k);
+            failed_ctl.remove(k);
         }
-        BuildOutcome { failed_cases, failed_ref, other_errors: other, ok }
+        // a control that does not compile: the case says nothing about this property
+        for k in failed_ctl.keys() {
+            failed_cases.remove(k);
+        }
+        BuildOutcome { failed_cases, failed_ref, failed_ctl, other_errors: other, ok }
     }
 
     pub fn bin_path(&self, b: usize) -> PathBuf {
@@ -288,6 +306,7 @@ pub struct BatchResult {
     pub reports: Vec<Value>,
     pub compile_fail: BTreeMap<usize, Vec<String>>,
     pub ref_fail: BTreeMap<usize, Vec<String>>,
+    pub ctl_fail: BTreeMap<usize, Vec<String>>,
     pub infra: Vec<String>,
 }
 
@@ -306,12 +325,13 @@ pub fn build_and_run_src(
     let mut skip: BTreeSet<usize> = BTreeSet::new();
     let mut compile_fail: BTreeMap<usize, Vec<String>> = BTreeMap::new();
     let mut ref_fail: BTreeMap<usize, Vec<String>> = BTreeMap::new();
+    let mut ctl_fail: BTreeMap<usize, Vec<String>> = BTreeMap::new();
     let mut infra = Vec::new();
     for _round in 0..5 {
         let spec = BatchSpec { pkg, header, cases, main, nbins, jvrt_features: features, extra_deps, skip: &skip };
         let b = write_batch(&spec);
         let bo = b.build();
-        if !bo.failed_cases.is_empty() || !bo.failed_ref.is_empty() {
+        if !bo.failed_cases.is_empty() || !bo.failed_ref.is_empty() || !bo.failed_ctl.is_empty() {
             for (k, v) in bo.failed_cases {
                 skip.insert(k);
                 compile_fail.insert(k, v);
@@ -320,6 +340,10 @@ pub fn build_and_run_src(
                 skip.insert(k);
                 ref_fail.insert(k, v);
             }
+            for (k, v) in bo.failed_ctl {
+                skip.insert(k);
+                ctl_fail.insert(k, v);
+            }
             if skip.len() >= cases.len() {
                 break;
             }
@@ -327,12 +351,12 @@ pub fn build_and_run_src(
         }
         if !bo.ok {
             infra.push(format!("build failed without attributable case: {}", bo.other_errors.join(" | ").chars().take(2000).collect::<String>()));
-            return BatchResult { reports: vec![], compile_fail, ref_fail, infra };
+            return BatchResult { reports: vec![], compile_fail, ref_fail, ctl_fail, infra };
         }
         let (reports, inf) = b.run(env, timeout_s);
         infra.extend(inf);
         let _ = std::fs::remove_dir_all(&b.dir);
-        return BatchResult { reports, compile_fail, ref_fail, infra };
+        return BatchResult { reports, compile_fail, ref_fail, ctl_fail, infra };
     }
-    BatchResult { reports: vec![], compile_fail, ref_fail, infra }
+    BatchResult { reports: vec![], compile_fail, ref_fail, ctl_fail, infra }
 }
